@@ -92,6 +92,7 @@ type history struct {
 	inconsistent bool   // the generator deleted a child while the parent referenced it
 	dates        string // pre-commit part: "2009" | "late" (after osm.CommitInfoStart, still no Committed) | "straddling" (crossing it)
 	ties         int    // same-second upload pairs (child edit, then parent version under another changeset)
+	fwd          []fwdCase
 }
 
 var (
@@ -102,6 +103,14 @@ var (
 
 var thCommit = []time.Duration{30 * time.Minute, 0, time.Second, time.Minute, 2 * time.Hour}
 var thPre = []time.Duration{30 * time.Minute, time.Second, time.Minute, 2 * time.Hour, 0}
+
+// fwdCase marks a parent version whose child kid has, inside the threshold window after the
+// parent version's timestamp, first a version from a foreign changeset and then one written
+// by the parent's own changeset (both logged in the parent version's second).
+type fwdCase struct {
+	parent int // index into history.parents
+	kid    key
+}
 
 // genOpts parametrises the history generator.
 type genOpts struct {
@@ -221,7 +230,8 @@ func genHistory(t *kit.Tape, o genOpts) *history {
 	}
 	upload := -1
 	cluster := -1     // uploads committed in the same second form one cluster (separated regimes: one version per element per cluster)
-	noJitter := false // the element timestamp is exactly the upload time
+	noJitter := false // the element timestamp is exactly the upload time (plus fixJit seconds)
+	fixJit := 0
 	preEra := pre
 	var cs osm.ChangesetID
 	// Changesets stay open for a while: an upload goes through a new changeset or through one of the
@@ -250,7 +260,7 @@ func genHistory(t *kit.Tape, o genOpts) *history {
 		v.cs = cs
 		v.commit = clock
 		if noJitter {
-			v.ts = clock
+			v.ts = clock.Add(time.Duration(fixJit) * time.Second)
 			v.hasCommit = !preEra
 		} else if preEra {
 			d := t.Draw(2*jitMax + 1)
@@ -386,6 +396,8 @@ func genHistory(t *kit.Tape, o genOpts) *history {
 		switchAt = 1 + t.Draw(nUploads)
 	}
 	var tieKid *key // the previous upload was a same-second upload that edited this child
+	var fwdJit [3]int
+	fwd := false
 	for u := 0; u < nUploads; u++ {
 		upload = u
 		cs = drawCS(cs) // never the previous upload's: a same-second pair needs two changesets
@@ -447,20 +459,41 @@ func genHistory(t *kit.Tape, o genOpts) *history {
 			// current for it.
 			if vk := visibleKids(); len(vk) > 0 {
 				k := vk[t.Draw(len(vk))]
-				noJitter = true
+				fwdJit = [3]int{}
+				fwd = false
+				if preEra && jitMax >= 1 && t.Chance(1, 3) {
+					// foreign-then-own: within the threshold window after the parent version's timestamp first
+					// this (foreign changeset) version of the child, then one written by the parent's own
+					// changeset. Same-changeset forward grouping makes the own version the parent's child.
+					fwd = true
+					fwdJit[0] = -jitMax + t.Draw(2*jitMax-1)               // parent version
+					fwdJit[1] = fwdJit[0] + 1 + t.Draw(jitMax-1-fwdJit[0]) // foreign child version
+					fwdJit[2] = fwdJit[1] + 1 + t.Draw(jitMax-fwdJit[1])   // own child version
+				}
+				noJitter, fixJit = true, fwdJit[1]
 				v := addKid(k, true)
-				noJitter = false
-				note("  %s (same second as the next upload)", v)
+				noJitter, fixJit = false, 0
+				if fwd {
+					note("  %s at %+ds (foreign changeset; the next upload, same second, writes the parent version at %+ds and this child at %+ds)", v, fwdJit[1], fwdJit[0], fwdJit[2])
+				} else {
+					note("  %s (same second as the next upload)", v)
+				}
 				tieKid = &k
 				h.ties++
 				continue
 			}
 		}
 		if follow {
-			noJitter = true
-			parentEdit(tieKid)
-			noJitter = false
-			tieKid = nil
+			noJitter, fixJit = true, fwdJit[0]
+			ok := parentEdit(tieKid)
+			if fwd && ok {
+				fixJit = fwdJit[2]
+				v := addKid(*tieKid, true)
+				note("  %s (own changeset, after the parent version's timestamp)", v)
+				h.fwd = append(h.fwd, fwdCase{parent: len(h.parents) - 1, kid: *tieKid})
+			}
+			noJitter, fixJit = false, 0
+			tieKid, fwd = nil, false
 		}
 		if u == parentAt {
 			parentEdit(nil)
